@@ -543,7 +543,7 @@ pub fn run(ctx: &Ctx) -> PropResult {
         }
         judge_dt_set(rec, i, off, f, v);
     }));
-    wls.push(Workload::cases("offset_local_twins", ctx.count(6_000, 200_000), |rec, _, rng| super::localzone::twin_case(rec, rng, "C09", super::walk::Family::SetClear)));
+    wls.push(Workload::cases("offset_local_twins", ctx.count(6_000, 40_000), |rec, _, rng| super::localzone::twin_case(rec, rng, "C09", super::walk::Family::SetClear)));
     wls.push(Workload::cases("date_api_walks", ctx.count(20_000, 800_000), |rec, _, rng| super::walk::walk_date(rec, rng, "C09", super::walk::Family::SetClear)));
     wls.push(Workload::cases("api_walks", ctx.count(30_000, 1_500_000), |rec, _, rng| super::walk::walk(rec, rng, "C09", super::walk::Family::SetClear)));
     let out = run_workloads(ctx, wls);
